@@ -158,6 +158,10 @@ impl ExchangeId {
 
             match select3(&mut recv, &mut session_removed, &mut timeout).await {
                 Either3::First(mut packet) => {
+                    // The RX predicate above also fires when our session is gone. The packet is not
+                    // ours then - bail out and leave it in place for whoever it belongs to.
+                    self.with_state(matter, |_| Ok(()))?;
+
                     packet.clear_on_drop(true);
 
                     self.check_no_pending_retrans(matter)?;
